@@ -77,7 +77,7 @@ def case_strategy(profile):
     return st.builds(lambda m, p: {"module": m, "passes": p}, genir.modules(profile), seqs)
 
 
-PROFILE = genir.Profile(name="c03", undef=True, constexpr_pct=4, spin_cycle_pct=8)
+PROFILE = genir.Profile(name="c03", undef=True, constexpr_pct=4, spin_cycle_pct=8, late_allocs=True, loop_local_pct=8, dup_args_pct=20)
 
 
 def _worker(arg):
